@@ -3,7 +3,8 @@
 use std::collections::{BTreeMap, BTreeSet};
 use std::sync::Arc;
 
-use rustic_core::repofile::BlobType;
+use rustic_core::repofile::{BlobType, SnapshotFile};
+use rustic_core::repofile::KeyId;
 use rustic_core::{BackupOptions, ConfigOptions, FileType, Id, KeyOptions, LimitOption, PruneOptions, RepairIndexOptions, RestoreOptions, RusticResult};
 use serde::{Deserialize, Serialize};
 use serde_json::{Value, json};
@@ -166,7 +167,7 @@ impl Prop for C16 {
     }
     fn rule(&self) -> &'static str {
         "one run = a hot/cold pair of SimStores (cold store needs warm-up; in half of the runs it rejects pack reads that were not warmed up) under the library's own HotColdBackend, plus a single-store twin fed the same history \
-         (backup, forget, repacking prune, config change, key add; partly under seeded gate schedules). Oracles: (1) the combined hot+cold mutation log is replayed op by op and after EVERY op every key/snapshot/index/tree-pack file listed by cold must be in hot with identical bytes and no data pack may be in hot — i.e. at every crash prefix; \
+         (backup, forget, repacking prune, config change, key add, key removal, copy of a snapshot from another repository into the pair; partly under seeded gate schedules). Oracles: (1) the combined hot+cold mutation log is replayed op by op and after EVERY op every key/snapshot/index/tree-pack file listed by cold must be in hot with identical bytes and no data pack may be in hot — i.e. at every crash prefix; \
          (2) snapshot sets (tree id, time) equal the twin's and every snapshot reads back equal to its model; (3) for restore, repacking prune and repair_index on the rejecting cold store the commands succeed and every cold pack read is preceded by a warm-up request for that pack; \
          (4) a seeded subset (or all) of the hot files is removed, repair_hotcold_except_packs + repair_hotcold_packs run, the invariant holds again and check is clean; (5) one storage op of a backup fails on the hot or the cold store: the command returns Err and the per-op invariant still holds. \
          evaluations = ops replayed + end oracles; non-trivial = >= 10 ops replayed and a repack or a repair actually moved files; distinct = hash(history, config)"
@@ -238,6 +239,7 @@ impl Prop for C16 {
         let mut model = build_model_min(&s.gen, s.model_seed, &[], s.start_s, 2);
         let mut hist = vec![];
         let mut moved = false;
+        let mut copy_src: Option<(Sim, FsModel)> = None;
         let popts = PruneOptions::default().max_unused(LimitOption::Percentage(0)).max_repack(LimitOption::Unlimited).keep_delete(jiff::Span::new()).instant_delete(true);
         macro_rules! both {
             ($name:expr, $a:expr, $b:expr) => {{
@@ -257,7 +259,7 @@ impl Prop for C16 {
         }
         // ---------- history on both worlds
         for step in 0..s.steps {
-            let choice = if step < 2 { 0 } else { rng.weighted(&[4, 2, 3, 1, 1]) };
+            let choice = if step < 2 { 0 } else { rng.weighted(&[4, 2, 3, 1, 1, 1, 2]) };
             let mode = if s.scheduled && rng.chance(1, 2) { sim.draw_mode(true, &[0, 1], false) } else { Mode::Free };
             match choice {
                 0 => {
@@ -293,12 +295,71 @@ impl Prop for C16 {
                     };
                     both!("config", run_cfg(&mut sim), run_cfg(&mut twin));
                 }
-                _ => {
+                4 => {
                     let run_key = |sm: &mut Sim| {
                         let (st, ht, ky) = (sm.store.clone(), sm.hot.clone(), sm.key.clone());
                         sm.run(&Mode::Free, move || open_on(&st, &ht, 1, &ky)?.add_key("extra", &KeyOptions::default()).map(|_| ()))
                     };
                     both!("add_key", run_key(&mut sim), run_key(&mut twin));
+                }
+                5 => {
+                    // remove a key file (the handles open with the master key, so any key may go)
+                    let run_del = |sm: &mut Sim| {
+                        let (st, ht, ky) = (sm.store.clone(), sm.hot.clone(), sm.key.clone());
+                        sm.run(&Mode::Free, move || {
+                            let repo = open_on(&st, &ht, 1, &ky)?;
+                            let mut ids: Vec<KeyId> = repo.list::<KeyId>()?.collect();
+                            ids.sort();
+                            let id = match ids.first() {
+                                Some(id) => *id,
+                                None => repo.add_key("temporary", &KeyOptions::default())?,
+                            };
+                            repo.delete_key(&id).map(|()| true)
+                        })
+                    };
+                    let (a, b) = (run_del(&mut sim), run_del(&mut twin));
+                    if matches!(a, Cmd::Ok(true)) {
+                        rep.fire("key_deleted", 1);
+                    }
+                    both!("delete_key", a, b);
+                }
+                _ => {
+                    // copy a snapshot from another repository (own key, own store) into both worlds
+                    if copy_src.is_none() {
+                        let mut src = Sim::new(s.subseed ^ 0x5c, s.cfg.clone(), &env.cpus, "c16-src");
+                        let m = build_model_min(&s.gen, s.model_seed ^ 0x5c, &[], s.start_s, 2);
+                        if src.init().is_ok() && src.backup(&Mode::Free, &m, 1, &BackupOptions::default(), &plan, "c16-src").is_ok() {
+                            copy_src = Some((src, m));
+                        }
+                    }
+                    if let Some((src, m)) = &copy_src {
+                        let run_copy = |sm: &mut Sim, mode: &Mode| {
+                            let (st, ht, ky, ss, sk) = (sm.store.clone(), sm.hot.clone(), sm.key.clone(), src.store.clone(), src.key.clone());
+                            let r = sm.run(mode, move || {
+                                let srepo = crate::world::repo_open(&ss, 7, &sk)?.to_indexed()?;
+                                let dst = open_on(&st, &ht, 1, &ky)?.to_indexed_ids()?;
+                                let snaps = srepo.get_all_snapshots()?;
+                                let rel = dst.relevant_copy_snapshots(|_| true, &snaps)?;
+                                let todo: Vec<SnapshotFile> = rel.into_iter().filter(|c| c.relevant).map(|c| c.sn).collect();
+                                srepo.copy(&dst, todo.iter())?;
+                                let trees: Vec<_> = snaps.iter().map(|x| x.tree).collect();
+                                Ok(dst.get_all_snapshots()?.into_iter().filter(|x| trees.contains(&x.tree)).collect::<Vec<SnapshotFile>>())
+                            });
+                            if let Cmd::Ok(new) = &r {
+                                for sn in new {
+                                    let _ = sm.snaps.insert(id_hex(&sn.id), crate::sim::SnapRec { snap: sn.clone(), model: m.clone() });
+                                }
+                            }
+                            r
+                        };
+                        let l0 = sim.store.log_len();
+                        let (a, b) = (run_copy(&mut sim, &mode), run_copy(&mut twin, &Mode::Free));
+                        if sim.store.log_from(l0).iter().any(|o| o.kind == OpKind::Write && o.tpe == FileType::Pack) {
+                            rep.fire("copy_wrote_packs", 1);
+                            moved = true;
+                        }
+                        both!("copy", a, b);
+                    }
                 }
             }
             interpose::clock_advance(61_000_000_000);
